@@ -52,6 +52,8 @@ func main() {
 	first = append(first, listenScenarios(boundMs(f), f.Thorough())...)
 	first = append(first, pipeScenarios(f)...)
 	first = append(first, mergeScenarios(f.N(5, 7))...)
+	// (tiny, and in front: a broken filter stage fails many scenarios, and the run stops early after 8 failing ones)
+	first = append(includeScenarios(f.N(4, 6), boundMs(f)), first...)
 	outs := runAll(f, first, f.N(4, 8))
 	points := map[string]int{}
 	for i, o := range outs {
@@ -102,6 +104,8 @@ func newAgg(res *lib.Result) *agg {
 	a.ties[tieLate] = res.Tie(tieLate, "K4", tieLateRule)
 	a.ties[tieMerge] = res.Tie(tieMerge, "K2", tieMergeRule)
 	a.ties[tieMerge].Exhaustive = true
+	a.ties[tieInclude] = res.Tie(tieInclude, "K2", tieIncludeRule)
+	a.ties[tieInclude].Exhaustive = true
 	a.mons[monShutdown] = res.Monitor(monShutdown,
 		"real pkg/resource + minibus under scenarios (0-8 subscribers, backpressure on/off, updates-only, PullID; consumers drain / stop after k / never receive; cancel before subscribe, at the n-th occurrence of every yield point, at random instants, at the end; 0-3 writers): after the cancel the consumer sees close within the bound; writers return once every non-receiving subscriber is cancelled; a write issued after a subscription ended returns; PullID closes after its item is removed - with backpressure after the first removal, without once the item is gone for good - also for a consumer that stayed away while the item was deleted / re-added / deleted behind it and came back without cancelling, and on collections built WithNoDuplicates / WithMessageEquivalence / WithEquivalence (items of two message types, the empty message included; read masks that select the payload or only a never-set field) (collections with an id interceptor lower/upper/trim: subscriber and writers spell the ids differently, the oracle keys everything by the intercepted id); trait-level subscriptions (Pull adapters of 10 trait models; the ModelServer gRPC Pull handlers of the same 10 traits on a stream whose Send starts failing at message 1, 2 or 3, or never): drain or stop receiving, writes, then cancel, also with an already-cancelled context; the goroutine census (runtime.Stack filtered to pkg/resource + internal/minibus + pkg/trait/* frames) returns to empty; no panic (recovered or process-killing). non-trivial = at least one subscriber; distinct = distinct check x subscription class x consumer/cancel mode")
 	a.mons[monDelivery] = res.Monitor(monDelivery,
@@ -143,6 +147,9 @@ func (a *agg) add(sc Scenario, o Outcome) {
 		} else if strings.HasPrefix(k, "merge:") {
 			dst = a.ties[tieMerge].Distribution
 			k = strings.TrimPrefix(k, "merge:")
+		} else if strings.HasPrefix(k, "include:") {
+			dst = a.ties[tieInclude].Distribution
+			k = strings.TrimPrefix(k, "include:")
 		}
 		dst[k] += n
 	}
@@ -238,6 +245,17 @@ func worker(f lib.Flags) {
 					drv = d
 				}
 				o2 := runMerge(req.Sc, drv)
+				o2.Ties = append(o.Ties, o2.Ties...)
+				o = o2
+			case "include":
+				if drv == nil {
+					d, derr := lib.StartDriver(f.Driver)
+					if derr != nil {
+						o.Ties = append(o.Ties, TieRec{Tie: tieInclude, Err: "driver: " + derr.Error()})
+					}
+					drv = d
+				}
+				o2 := runInclude(req.Sc, drv)
 				o2.Ties = append(o.Ties, o2.Ties...)
 				o = o2
 			case "race":
@@ -421,7 +439,7 @@ func replay(f lib.Flags) int {
 	}
 	b, _ := json.Marshal(rp.Input)
 	var sc Scenario
-	if rp.Input == nil || json.Unmarshal(b, &sc) != nil || sc.Res == "" && sc.Sched == nil && sc.Race == nil && sc.Pipe == nil && sc.Adapter == nil && sc.Single == nil && sc.Merge == nil {
+	if rp.Input == nil || json.Unmarshal(b, &sc) != nil || sc.Res == "" && sc.Sched == nil && sc.Race == nil && sc.Pipe == nil && sc.Adapter == nil && sc.Single == nil && sc.Merge == nil && sc.Incl == nil {
 		fmt.Println("replay: no concrete input in file (", rp.Kind, rp.Broken, ")")
 		return 2
 	}
